@@ -285,6 +285,38 @@ func init() {
 					}
 				}
 			}
+			// equal getters on services that are not neighbours in name order, with other getters / getter-less / todo services
+			// between them; getters that differ in surrounding white space only
+			for li, layout := range [][]string{{"G", "G"}, {"G", "O", "G"}, {"G", "", "G"}, {"G", "T", "G"}, {"O", "G", "O", "G"}, {"G", "O", "P", "G"}, {"G", "O", "G", "O"}, {"G", "G\n"}, {"G", " G"}, {"G", "O", "G\t"}, {"G\n", "G\n"}} {
+				li, layout := li, layout
+				w.Case(fmt.Sprintf("collision/layout/%d", li), func(c *C) {
+					cfg := &Cfg{Meta: stdMeta()}
+					for i, g := range layout {
+						sv := Service{Name: fmt.Sprintf("s%02d", i), Constructor: P("pk.New")}
+						switch {
+						case g == "":
+						case g == "T":
+							sv = Service{Name: sv.Name, Todo: P(true)}
+						case g == "O":
+							sv.Getter = P("GetOther")
+						case g == "P":
+							sv.Getter = P("GetThird")
+						default:
+							sv.Getter = P(strings.Replace(g, "G", "GetShared", 1))
+						}
+						cfg.Services = append(cfg.Services, sv)
+					}
+					files := []File{{"c.yaml", cfg.YAML()}}
+					br := w.Build(files)
+					c.Distinct("all", c.ID)
+					c.Distinct("nontrivial", c.ID)
+					if br.Panic != "" {
+						c.Violation("panic", "tool panicked:\n"+br.Panic, FilesMap(files), nil)
+					} else if br.Exit == 0 {
+						c.Violation("collision-accepted:layout", fmt.Sprintf("getters %q (in service-name order; G = GetShared, O / P = other getters, T = todo, empty = none): two services share a getter (or a getter carries white space) and the configuration was accepted", layout), FilesMap(files), nil)
+					}
+				})
+			}
 			// collision rows
 			w.Case("collision/setup", func(c *C) { getBase() })
 			base0, fields0, _ := w.TC(false).ContainerMethods()
